@@ -24,11 +24,6 @@ func (node *FilterNode) isHeadersQualified(
 		return true
 	}
 
-	if flow.IsUserFlow() && len(node.filterRequirements.headers) == 0 {
-		log.Trace().Msgf("Headers not specified on Flow: %s", flow.GetName())
-		return true
-	}
-
 	flowFilter := flow.GetFilter()
 
 	if len(flowFilter.GetAllowedHeaders()) == 0 {
@@ -53,11 +48,6 @@ func (node *FilterNode) isStatusCodeQualified(
 	flow internaltypes.FlowI,
 	APIStream publictypes.APIStreamI,
 ) bool {
-	if flow.IsUserFlow() && len(node.filterRequirements.statusCodes) == 0 {
-		log.Trace().Msgf("Status code not specified for %s", flow.GetName())
-		return true
-	}
-
 	if APIStream.GetType().IsRequestType() {
 		return true
 	}
@@ -84,12 +74,13 @@ func (node *FilterNode) isMethodQualified(
 	flow internaltypes.FlowI,
 	APIStream publictypes.APIStreamI,
 ) bool {
-	if flow.IsUserFlow() && len(node.filterRequirements.methods) == 0 {
+	flowFilter := flow.GetFilter()
+	// a flow that names no method accepts every method; the decision depends on
+	// the flow's own filter only, not on the other flows registered on the node
+	if len(flowFilter.GetAllowedMethods()) == 0 {
 		log.Trace().Msgf("Method not specified on Flow: %s", flow.GetName())
 		return true
 	}
-
-	flowFilter := flow.GetFilter()
 
 	for _, method := range flowFilter.GetSupportedMethods() {
 		if method == APIStream.GetMethod() {
@@ -107,11 +98,6 @@ func (node *FilterNode) isQueryParamsQualified(
 	APIStream publictypes.APIStreamI,
 ) bool {
 	if APIStream.GetType().IsResponseType() {
-		return true
-	}
-
-	if flow.IsUserFlow() && len(node.filterRequirements.queryParams) == 0 {
-		log.Trace().Msgf("Query params not specified")
 		return true
 	}
 
